@@ -91,6 +91,40 @@ func init() {
 			return Val{T: r, Typ: types.Typ[types.String]}, true
 		}
 	}
+	// LegacyDec: the value is the raw integer scaled by 10^18 (Add/Sub/comparisons act on it directly)
+	const decP = "1000000000000000000"
+	pd := pkgMath + "(LegacyDec)."
+	decType := func(x *Exec) types.Type { return typNamed(x, "cosmossdk.io/math", "LegacyDec") }
+	natives[pd+"MulInt"] = func(x *Exec, st *State, fr *Frame, at ssa.Instruction, a []Val) (Val, bool) {
+		// exact product of the raw value and the integer; panics beyond 315 bits
+		x.safety(st, fr, at, "mintnil", And(Not(mintNil(a[0].T)), Not(mintNil(a[1].T))))
+		prod := x.define(st, "decmul", App(SInt, "*", mintV(a[0].T), mintV(a[1].T)))
+		lim := IntLitStr("66749594872528440074844428317798503581334516323645399060845050244444366430645017188217565216768")
+		x.safety(st, fr, at, "dec.overflow", And(App(SBool, "<", prod, lim), App(SBool, "<", App(SInt, "-", lim), prod)))
+		return Val{T: x.define(st, "mi", mkMInt(prod)), Typ: a[0].Typ}, true
+	}
+	natives[pd+"Ceil"] = func(x *Exec, st *State, fr *Frame, at ssa.Instruction, a []Val) (Val, bool) {
+		x.safety(st, fr, at, "mintnil", Not(mintNil(a[0].T)))
+		c := App(SInt, "-", App(SInt, "div", App(SInt, "-", mintV(a[0].T)), IntLitStr(decP)))
+		return Val{T: x.define(st, "mi", mkMInt(App(SInt, "*", c, IntLitStr(decP)))), Typ: a[0].Typ}, true
+	}
+	natives[pd+"TruncateInt"] = func(x *Exec, st *State, fr *Frame, at ssa.Instruction, a []Val) (Val, bool) {
+		x.safety(st, fr, at, "mintnil", Not(mintNil(a[0].T)))
+		return Val{T: x.define(st, "mi", mkMInt(x.truncDiv(mintV(a[0].T), IntLitStr(decP), false, nil))), Typ: x.mintType()}, true
+	}
+	natives[pkgMath+"LegacyNewDecFromInt"] = func(x *Exec, st *State, fr *Frame, at ssa.Instruction, a []Val) (Val, bool) {
+		x.safety(st, fr, at, "mintnil", Not(mintNil(a[0].T)))
+		return Val{T: x.define(st, "mi", mkMInt(App(SInt, "*", mintV(a[0].T), IntLitStr(decP)))), Typ: decType(x)}, true
+	}
+	natives[pkgMath+"LegacyNewDec"] = func(x *Exec, st *State, fr *Frame, at ssa.Instruction, a []Val) (Val, bool) {
+		return Val{T: x.define(st, "mi", mkMInt(App(SInt, "*", a[0].T, IntLitStr(decP)))), Typ: decType(x)}, true
+	}
+	natives[pkgMath+"LegacyZeroDec"] = func(x *Exec, st *State, fr *Frame, at ssa.Instruction, a []Val) (Val, bool) {
+		return Val{T: mkMInt(IntLit(0)), Typ: decType(x)}, true
+	}
+	natives[pkgMath+"LegacyOneDec"] = func(x *Exec, st *State, fr *Frame, at ssa.Instruction, a []Val) (Val, bool) {
+		return Val{T: mkMInt(IntLitStr(decP)), Typ: decType(x)}, true
+	}
 	pi := pkgMath + "(Int)."
 	natives[pi+"Mul"] = intBin("*")
 	natives[pi+"AddRaw"] = intBinRaw("+")
@@ -292,6 +326,12 @@ func nativeByPattern(name string) nativeFn {
 	switch {
 	case strings.HasPrefix(name, "slices.Sort["):
 		return nativeSlicesSort
+	case strings.HasPrefix(name, "slices.SortStableFunc["), strings.HasPrefix(name, "slices.SortFunc["):
+		// a permutation of the input in an order decided by the caller's comparison function
+		// (the order itself is not modelled)
+		return func(x *Exec, st *State, fr *Frame, at ssa.Instruction, a []Val) (Val, bool) {
+			return slicesPermute(x, st, a, false)
+		}
 	case strings.HasPrefix(name, "slices.Contains["):
 		return nativeSlicesContains
 	case strings.HasPrefix(name, "github.com/VolumeFi/whoops.Must["):
@@ -321,13 +361,20 @@ func nativeByPattern(name string) nativeFn {
 // slices.Sort: the result is a sorted permutation of the input (trusted). The permutation is given
 // by a skolem function perm: index -> index, bijective on [0,len).
 func nativeSlicesSort(x *Exec, st *State, fr *Frame, at ssa.Instruction, a []Val) (Val, bool) {
+	return slicesPermute(x, st, a, true)
+}
+
+func slicesPermute(x *Exec, st *State, a []Val, ordered bool) (Val, bool) {
 	s := a[0]
+	if s.Typ == nil {
+		return Val{}, false
+	}
 	sl, ok := s.Typ.Underlying().(*types.Slice)
 	if !ok {
 		return Val{}, false
 	}
 	sort := x.S.SortOf(sl.Elem())
-	if sort != SInt && sort != SReal {
+	if ordered && sort != SInt && sort != SReal {
 		return Val{}, false
 	}
 	n, as := elemArrName(sort)
@@ -351,7 +398,17 @@ func nativeSlicesSort(x *Exec, st *State, fr *Frame, at ssa.Instruction, a []Val
 	// outside the slice window nothing changes
 	st.assume(Term{fmt.Sprintf("(forall ((i Int)) (! (=> (or (< i %[1]s) (>= i (+ %[1]s %[2]s))) (= (select %[3]s i) (select %[4]s i))) :pattern ((select %[3]s i))))", off.S, ln.S, newRow.S, oldRow.S), SBool})
 	// sorted
-	st.assume(Term{fmt.Sprintf("(forall ((i Int) (j Int)) (! (=> (and (<= 0 i) (<= i j) (< j %[1]s)) (<= (select %[2]s %[3]s) (select %[2]s %[4]s))) :pattern ((select %[2]s %[3]s) (select %[2]s %[4]s))))", ln.S, newRow.S, idx("i"), idx("j")), SBool})
+	if ordered {
+		st.assume(Term{fmt.Sprintf("(forall ((i Int) (j Int)) (! (=> (and (<= 0 i) (<= i j) (< j %[1]s)) (<= (select %[2]s %[3]s) (select %[2]s %[4]s))) :pattern ((select %[2]s %[3]s) (select %[2]s %[4]s))))", ln.S, newRow.S, idx("i"), idx("j")), SBool})
+	}
+	if !ordered {
+		// same elements (multiplicity not tracked): every new element is an old one and vice versa;
+		// no perm/inv round-trip identities, which would feed each other's triggers
+		st.assume(Term{fmt.Sprintf("(forall ((i Int)) (! (=> (and (<= 0 i) (< i %[1]s)) (and (<= 0 (%[4]s i)) (< (%[4]s i) %[1]s) (= (select %[2]s %[5]s) (select %[3]s %[6]s)))) :pattern ((select %[2]s %[5]s))))", ln.S, newRow.S, oldRow.S, perm, idx("i"), idx("("+perm+" i)")), SBool})
+		st.assume(Term{fmt.Sprintf("(forall ((i Int)) (! (=> (and (<= 0 i) (< i %[1]s)) (and (<= 0 (%[4]s i)) (< (%[4]s i) %[1]s) (= (select %[3]s %[5]s) (select %[2]s %[6]s)))) :pattern ((select %[3]s %[5]s))))", ln.S, newRow.S, oldRow.S, inv, idx("i"), idx("("+inv+" i)")), SBool})
+		x.setHeap(st, n, Store(arr, base, newRow))
+		return Val{T: Term{"unit", SUnit}}, true
+	}
 	// permutation: new[i] = old[perm(i)], perm maps window to window, invertible
 	st.assume(Term{fmt.Sprintf("(forall ((i Int)) (! (=> (and (<= 0 i) (< i %[1]s)) (and (<= 0 (%[4]s i)) (< (%[4]s i) %[1]s) (= (%[5]s (%[4]s i)) i) (= (select %[2]s %[6]s) (select %[3]s %[7]s)))) :pattern ((%[4]s i)) :pattern ((select %[2]s %[6]s))))", ln.S, newRow.S, oldRow.S, perm, inv, idx("i"), idx("("+perm+" i)")), SBool})
 	st.assume(Term{fmt.Sprintf("(forall ((i Int)) (! (=> (and (<= 0 i) (< i %[1]s)) (and (<= 0 (%[3]s i)) (< (%[3]s i) %[1]s) (= (%[2]s (%[3]s i)) i))) :pattern ((%[3]s i))))", ln.S, perm, inv), SBool})
